@@ -118,6 +118,9 @@ func (m memImporter) Import(path string) (*types.Package, error) {
 
 // memTargets: the in-memory targets; memPkgVariant: which variant an in-memory dependency package belongs to
 var memTargets []*target
+
+// memStale: the targets that have a stale copy on disk
+var memStale = map[string]bool{}
 var memPkgVariant = map[*types.Package]int{}
 
 func memCheck(fset *token.FileSet, imp types.Importer, pkgPath, filename, src string) (*types.Package, *ast.File, *types.Info, error) {
@@ -218,6 +221,8 @@ var (
 	for _, val := range all {
 		fmt.Fprintf(&b, "\tmvdo(%s)\n", val)
 	}
+	// text that go/printer would write differently: whether a node's text was sliced from the file or printed shows
+	b.WriteString("\tmvdo(vInt+1)\n\tmvdo(vStr+\"x\")\n\tq05(vInt+2)\n\tpair(vInt+3, vStr)\n\tname(\"alpha\"+\"z\")\n")
 	for _, val := range append([]string{"vWrap"}, memLocalValues...) {
 		fmt.Fprintf(&b, "\tmiduse1(%s)\n\tmiduse2(%s)\n", val, val)
 	}
@@ -262,6 +267,7 @@ func checkMemTargets(dir string, fset *token.FileSet, std types.Importer, nDo, n
 				if err := os.WriteFile(path, []byte(src[:cut+1]), 0o644); err != nil {
 					return err
 				}
+				memStale[name] = true
 			}
 			imp := memImporter{map[string]*types.Package{memDepPath: dep, memMidPath: mid}, std}
 			pkg, f, info, err := memCheck(fset, imp, "c08/"+name, path, src)
